@@ -102,7 +102,10 @@ InScope(t) ==
   /\ WellFormed(t)
   /\ IF Mode = "dc" THEN TRUE
      ELSE LET p == Prefix(t) IN
-          \/ (RpcTop(p) /\ Leaf(t) \notin ArrowObjLeaves)
+          \/ (/\ RpcTop(p) /\ Leaf(t) \notin ArrowObjLeaves
+              \* "lists, maps and sets of scalars": Enum is listed next to, not among, the scalars -- an Enum inside
+              \* an RPC-level container (element, value or key) is outside the statement (it works in dataclass fields)
+              /\ (HasContainer(t) => (Leaf(t) # "enum" /\ ~Has(t, "map_enum"))))
           \/ (Len(p) >= 1 /\ p[1] = "dc")
           \/ (Len(p) >= 2 /\ p[1] = "opt" /\ p[2] = "dc")
 TypesInScope == {t \in {p \o <<l>> : p \in PrefixesUpTo(MaxDepth), l \in Leaves} : InScope(t)}
